@@ -161,10 +161,11 @@ func main() {
 	partialRun = *only != ""
 	rep := buildReport(eng, *prop, *tier, results, *verifDir, start)
 	rep.print(*verbose)
-	if *prop != "" {
+	if *prop != "" && !partialRun {
+		// a run restricted with -only is a development aid: it must not replace the record of a full run
 		rep.writeEvidence(filepath.Join(*evidenceDir, *prop+".json"))
 	}
-	if *writeLedger {
+	if *writeLedger && !partialRun {
 		rep.writeLedger(filepath.Join(*verifDir, "ledger.json"))
 	}
 	if rep.exitCode == 0 {
